@@ -9,6 +9,7 @@ if ! git diff --quiet; then echo "/repo working tree is dirty; refusing" >&2; ex
 git apply "$patch" || { echo "patch does not apply" >&2; exit 2; }
 trap 'git -C /repo checkout -- . ; git -C /repo clean -fdq src' EXIT
 cd /verif
+export VERIF_EVIDENCE_DIR=/tmp/seeded_evidence   # never overwrite the evidence of the unchanged tree
 rc=0
 for p in "$@"; do
   out=$(timeout 1800 /venv/bin/python -m checks.run "$p" --tier "${TIER:-quick}" 2>&1)
